@@ -3,7 +3,8 @@
 From Coq Require Import List Bool Arith NArith ZArith Extraction ExtrOcamlBasic.
 From CelloV Require Import Generated HeapGraph MarkSweep.
 
-Definition gm_step := step gc_tls_recurses gc_mar_guarded gc_finaliser_alloc_widens.
+Definition gm_step := step gc_tls_recurses gc_mar_guarded gc_finaliser_alloc_widens gc_next_mitems.
+Definition gm_next_mitems := gc_next_mitems.
 Definition gm_fin_widens := gc_finaliser_alloc_widens.
 Definition gm_step_with := step.                 (* explicit switches: pre-repair variants *)
 Definition gm_mark (tr mg : bool) (s : state) : outcome marks :=
@@ -39,5 +40,5 @@ Definition gm_full_state (hp : heap) (rg : registry) (order : list word) (tls : 
 Definition gm_z_of_n := Z.of_N.      (* conv.ml.inc refers to the extracted type z *)
 
 Extraction Language OCaml.
-Extraction "../ocaml/gen/Mark.ml" gm_step gm_fin_widens gm_step_with gm_mark gm_tls_recurses gm_mar_guarded gm_st0
+Extraction "../ocaml/gen/Mark.ml" gm_step gm_fin_widens gm_next_mitems gm_step_with gm_mark gm_tls_recurses gm_mar_guarded gm_st0
   gm_registered gm_marked gm_contents gm_tls gm_reach gm_nset gm_ndel gm_nempty gm_hyp gm_full_state gm_z_of_n.
